@@ -66,6 +66,21 @@ impl<Ev> Clone for Http<Ev> {
     }
 }
 
+/// Verification hook, compiled only with `--cfg crux_verif`.
+#[cfg(crux_verif)]
+impl<Ev> Http<Ev> {
+    /// Returns this capability with `middleware` pushed onto the middleware stack of its
+    /// [`Client`] (client-level middleware, which runs before per-request middleware).
+    ///
+    /// There is no public way to configure a client yet; this exposes the crate-private
+    /// `Client::with` so that the documented ordering can be checked.
+    #[must_use]
+    pub fn verif_with_client_middleware(mut self, middleware: impl middleware::Middleware) -> Self {
+        self.client = self.client.with(middleware);
+        self
+    }
+}
+
 impl<Ev> Http<Ev>
 where
     Ev: 'static,
